@@ -27,11 +27,10 @@ import base64
 import hashlib
 import itertools
 import random
-import struct
 
 from pyvc.api import Bounded
 
-from twisted.conch.ssh import common, keys
+from twisted.conch.ssh import common
 from twisted.conch.ssh.keys import FingerprintFormats, Key
 
 # ----------------------------------------------------------------------------------------------------------------
